@@ -562,8 +562,15 @@ func (dec *Decoder) Literal(ptr *string) bool {
 	}
 	if dec.CheckBufferedLiteralFunc != nil {
 		if err := dec.CheckBufferedLiteralFunc(lit.Size(), nonSync); err != nil {
+			if nonSync {
+				// The peer sends a non-synchronizing literal without
+				// waiting for a go-ahead: skip it, so that its octets
+				// are not parsed as commands
+				io.Copy(io.Discard, lit)
+				dec.crlf = false
+			}
 			lit.cancel()
-			return false
+			return dec.returnErr(err)
 		}
 	}
 	var sb strings.Builder
